@@ -171,6 +171,64 @@ def place_supernet(torch, m, spec, rng, g):
     return done
 
 
+def add_training_branch(torch, m, spec, variant, rng):
+    """make forward() READ self.training (torch.fx bakes Python control flow at trace time): the eval-time function is
+    what the property is about.  variants:
+      logsoftmax  root forward: `if not self.training: y = log_softmax(y, 1)`
+      train-relu  root forward: `if self.training: y = relu(y)`
+      aux         root forward returns (y, aux_head(y)) while training, y otherwise (linear heads only)
+      subblock    an activation module is replaced by a traced NON-leaf block whose forward doubles x while training
+    module names are kept (the class of the built network is swapped for a subclass)."""
+    import torch.nn as nn
+    import torch.nn.functional as F
+    nodes = spec['nodes']
+    if variant == 'aux' and nodes[spec['out'][0]]['k'] != 'linear':
+        variant = 'logsoftmax'
+    acts = [i for i, nd in enumerate(nodes) if nd['k'] in ('relu', 'relu6')]
+    if variant == 'subblock' and not acts:
+        variant = 'train-relu'
+    base = type(m)
+    nin = sum(1 for nd in nodes if nd['k'] == 'in')
+    if variant == 'subblock':
+        class TrainGate(nn.Module):
+            def __init__(self, act):
+                super().__init__()
+                self.act = act
+
+            def forward(self, x):
+                x = self.act(x)
+                if self.training:
+                    x = x + x
+                return x
+        i = rng.choice(acts)
+        m.layers['n%d' % i] = TrainGate(m.layers['n%d' % i])
+        return variant
+    if variant == 'aux':
+        m.aux_head = nn.Linear(nodes[spec['out'][0]]['cout'], 2)
+
+    def post(self, y):
+        if variant == 'logsoftmax':
+            if not self.training:
+                y = F.log_softmax(y, 1)
+        elif variant == 'train-relu':
+            if self.training:
+                y = torch.relu(y)
+        elif variant == 'aux':
+            if self.training:
+                return y, self.aux_head(y)
+        return y
+    if nin == 1:
+        class TB(base):
+            def forward(self, x0):
+                return post(self, base.forward(self, x0))
+    else:
+        class TB(base):
+            def forward(self, x0, x1):
+                return post(self, base.forward(self, x0, x1))
+    m.__class__ = TB
+    return variant
+
+
 # ----------------------------------------------------------------------------- observers
 def hp(mod):
     """hyper-parameters of a module as a JSON-able tuple"""
@@ -279,6 +337,8 @@ def sd_diff(torch, sd0, sd1):
 
 
 def maxdiff(torch, a, b):
+    if isinstance(a, (tuple, list)) != isinstance(b, (tuple, list)) or (isinstance(a, (tuple, list)) and len(a) != len(b)):
+        return float('inf')         # a tuple where a tensor is expected (or the converse)
     if isinstance(a, (tuple, list)):
         return max(maxdiff(torch, x, y) for x, y in zip(a, b))
     if tuple(a.shape) != tuple(b.shape):
@@ -309,6 +369,9 @@ def run_case(torch, seed, cfg):
         xs = ga.example_input(spec, torch, seed, integer=integer, dtype=torch.float64)
         rng = random.Random(seed * 7 + 1)
         g = torch.Generator().manual_seed(seed + 5)
+        if cfg.get('tbranch'):
+            o['tbranch'] = add_training_branch(torch, m, spec, cfg['tbranch'], rng)
+            m = m.to(torch.float64)
         method = cfg['method']
         convs = [i for i, nd in enumerate(spec['nodes']) if nd['k'] in CONVS]
         bnf = bn_followers(spec)
@@ -479,7 +542,7 @@ def run_case(torch, seed, cfg):
             e.eval()
             with torch.no_grad():
                 ye = e(*xs)
-            ob['export_out_shape_ok'] = (tuple(ye.shape) == tuple(y0.shape)) if not isinstance(ye, tuple) else True
+            ob['export_out_shape_ok'] = (not isinstance(ye, (tuple, list))) and tuple(ye.shape) == tuple(y0.shape)
             ob['d_export'] = maxdiff(torch, y0, ye)
             if method == 'pit':
                 ob['export_arch'] = graph_arch(e)
